@@ -2,6 +2,10 @@
 //! Tokens, in document order:  R:1,2,3 (registers array; R: alone = empty)  B:4  H:mul,add,sh,seed
 //! X<name>:<int> (unknown field)  Bs:<text> (b as a string = wrong type)  Rs:<text>  Hn (hasher null)
 pub fn tokens_to_json(toks: &[&str]) -> String {
+    // `N`: the whole document is a number (not a struct at all)
+    if toks == ["N"] {
+        return "7".to_string();
+    }
     // a leading `A` token: the values only, as a positional (JSON array) document
     if toks.first() == Some(&"A") {
         let obj = tokens_to_json(&toks[1..]);
